@@ -42,7 +42,7 @@ ASSUMPTIONS = [
 BOUNDS = {"quick": "Qst Q1 (tables N<=3), Povmt Q1 m=2 (N<=2) and m=3 (N=1), Qpt Q1 (N=1, at most one schedule off), Qst Q3 (N=1); exact data of every "
                    "alphabet object and typical data N=1e1..1e5 for two truths x {generic, fast} x both flags; 3 datasets x 4 stopping modes x windows {1,3}; "
                    "cvxpy/SCS on every problem; max_iteration 500",
-          "thorough": "adds: every stopping mode x window {1,2,3} x eps {default, x100, /100} on every core dataset; tables Qst Q1 N=4, Povmt m=2 N=3, "
+          "thorough": "adds: every stopping mode x window {1,2,3} x eps {default, x100; /100 for the loss modes} x {generic, fast} on every core dataset; tables Qst Q1 N=4, Povmt m=2 N=3, "
                       "Povmt m=3 N=2, Qpt N=1 with at most two schedules off, Qst Q3 N=2 with at most two schedules off; SCS eps 1e-6"}
 EXHAUSTIVE = {"quick": True, "thorough": True}
 CASE_TIMEOUT = 1500
@@ -179,7 +179,13 @@ def all_stops(tier):
     out = []
     for mode in ("single", "absloss", "var", "pgrad"):
         for nh in ((1, 3) if tier == "quick" else (1, 2, 3)):
-            for f in ((1.0,) if tier == "quick" else (1.0, 100.0, 0.01)):
+            if tier == "quick":
+                fs = (1.0,)
+            elif mode in ("single", "absloss"):
+                fs = (1.0, 100.0, 0.01)          # 1e-14 is the library's default eps
+            else:
+                fs = (1.0, 100.0)
+            for f in fs:
                 out.append([mode, nh, EPS_DEFAULT[mode] * f])
     return out
 
@@ -305,6 +311,15 @@ def lockstep(out, S, flag, L, d, stop, site, cls):
             out.count("reference_projection_uncertified")
         else:
             err = float(np.abs((zref - x) - y).max())
+            if err > tolp and abs(Mt[0, 0] - 1.0) > 1e-12:
+                # scaled isometry (POVM with two outcomes, flag on): the gradient taken in the metric of the projection
+                # differs by the constant factor; either reading of "projected-gradient direction" is accepted
+                zref2, good2, cert2 = M.ref_project_var(S, flag, x - g / (mu * Mt[0, 0]))
+                if good2:
+                    err2 = float(np.abs((zref2 - x) - y).max())
+                    if err2 <= tolp:
+                        err = err2
+                        out.count("direction_in_stacked_metric")
             out.count("direction_steps_checked")
             bucket(out, "ystep", err / tolp)
             if err > tolp:
